@@ -2059,11 +2059,13 @@ class Memoer(Tymee):
             else:
                 raise  # unexpected error
 
-        if cnt:
-            del gram[:cnt]  # remove from buffer those bytes sent
+        if dst is not None:  # not dropped
+            del gram[:cnt]  # remove from buffer those bytes sent if any
             if not gram:  # all sent
                 dst = None  # done indicated by setting dst to None
-            self.txbs = (gram, dst)  # update .txbs to indicate if completely sent
+            # always update .txbs, a gram none of whose bytes were sent (would
+            # block) has already been popped from .txgs and must be retried
+            self.txbs = (gram, dst)
 
         return (False if dst else True)  # incomplete return False, else True
 
